@@ -506,7 +506,8 @@ func C01(run *mon.Run) {
 		k := randScalar(r)
 		sk := skFromInt(k)
 		h := crypto.NewExpandMsgXOFKMAC128("xp-hunt")
-		for j := 0; j < 200; j++ {
+		seenSign := [2]bool{} // one such point per value of the sign bit
+		for j := 0; j < 400 && !(seenSign[0] && seenSign[1]); j++ {
 			msg := []byte(fmt.Sprintf("xp-hunt-%d-%d", i, j))
 			H, err := hashPoint(msg, h, "kmac:xp-hunt")
 			if err != nil {
@@ -518,12 +519,15 @@ func C01(run *mon.Run) {
 				continue
 			}
 			enc := ref.EncodeG1(E)
+			if seenSign[(enc[0]>>5)&1] {
+				continue
+			}
+			seenSign[(enc[0]>>5)&1] = true
 			c := xp.FillBytes(make([]byte, 48))
 			c[0] |= enc[0] & 0xE0
 			verifyExpect(run, "C01", sk.PublicKey(), cand{b: enc, kind: "E"}, msg, h, true, "xp-hunt")
 			verifyExpect(run, "C01", sk.PublicKey(), cand{b: c, kind: "x-plus-p"}, msg, h, false, "xp-hunt")
 			run.Count("xp-hunt.hits", 1)
-			break
 		}
 	}
 	run.Require(run.Counter("xp-hunt.hits") > 0, "no point with x+p < 2^381 found")
